@@ -28,12 +28,16 @@ enforce: spiftool_substr
 backend: sat
 checks_off: --conversion-check
 */
+/* carrier of a known finding: the failing run must build a counterexample, which runs out of memory
+ * with a string of symbolic size up to VCAP, hence the small cap (tier B, no loop involved) */
 /*@unit
 name: substr_negcount
 define: U_NEG
 src: strings.c
 enforce: spiftool_substr
 backend: sat
+tier: B
+bound: string length <= 32 (loop-free; cap only keeps the counterexample small)
 checks_off: --conversion-check
 */
 #define VERIF_OWN_STRLEN
@@ -60,7 +64,7 @@ __CPROVER_requires(idx >= 0 && cnt > 0)
 __CPROVER_requires(idx < 0 || cnt <= 0)
 # endif
 #else
-__CPROVER_requires(SIN && SC < 0)
+__CPROVER_requires(SIN && SC < 0 && vg_n1 <= 32)
 #endif
 __CPROVER_assigns(vg_len_ret)
 #ifdef U_MAIN
